@@ -108,6 +108,10 @@ variable {W : Nat}
 def allReduceSum [Add R] [Zero R] (x : Fin W → Grad R P dims) : Fin W → Grad R P dims :=
   fun _ p i => sumFin W fun w => x w p i
 
+/-- `opacus.distributed.average_gradients`: `all_reduce(param.grad, SUM)` then `param.grad /= world_size` -/
+def averageGradients [Add R] [Div R] [Zero R] [NatCast R] (x : Fin W → Grad R P dims) : Fin W → Grad R P dims :=
+  fun w p i => allReduceSum x w p i / (W : R)
+
 /-- `broadcast(p.data, src)`: every rank ends with the source rank's tensor -/
 def broadcast {α : Type} (src : Fin W) (x : Fin W → α) : Fin W → α := fun _ => x src
 
